@@ -30,6 +30,9 @@ type stubHubT struct {
 	calls []*stubCall
 	// echo: when set, stubs write back what they read (C16)
 	Echo bool
+	// ReadSize is the buffer size stubs read with (services differ: byte-wise banner reads,
+	// fixed-size headers, large buffers)
+	ReadSize int
 	// Bus is the event bus handle the server passes to services (C06 sends events through it)
 	Bus pushers.Channel
 }
@@ -41,6 +44,7 @@ func (h *stubHubT) reset() {
 	h.calls = nil
 	h.Echo = false
 	h.Bus = nil
+	h.ReadSize = 0
 	h.mu.Unlock()
 }
 func (h *stubHubT) snapshot() []stubCall {
@@ -72,11 +76,15 @@ func (s *stubService) Handle(ctx context.Context, conn net.Conn) error {
 	c.Step = hub.step
 	stubHub.calls = append(stubHub.calls, c)
 	echo := stubHub.Echo
+	rs := stubHub.ReadSize
 	stubHub.mu.Unlock()
+	if rs <= 0 {
+		rs = 4096
+	}
 	if s.Reply != "" {
 		conn.Write([]byte(s.Reply))
 	}
-	buf := make([]byte, 4096)
+	buf := make([]byte, rs)
 	for {
 		n, err := conn.Read(buf)
 		if n > 0 {
